@@ -323,7 +323,8 @@ def _blocks(rng, rows, cols, n, maxside):
 
 # image sizes for the stationary clause: N = nind * box^2 small enough that 6 standard errors dominate the
 # intrinsic bias of the clipped estimator
-STAT_SIZES = {16: [(48, 32), (32, 64), (64, 48)], 24: [(48, 48), (72, 48)]}
+STAT_SIZES = {16: [(48, 32), (32, 64), (40, 56)], 24: [(48, 48), (48, 60), (60, 50)]}
+STAT_MAXN = 2400
 STAT_MINBOX = 16
 
 
@@ -374,7 +375,7 @@ def make_group(cfg, rng, gid, big=False, force=None, stat=False, kinds=None):
             spec["nan"] = _blocks(rng, rows, cols, rng.randint(1, 3), max(2, min(rows, cols) // 3))
             if rng.random() < 0.4:
                 spec["inf"] = [[rng.randint(0, rows - 1), rng.randint(0, cols - 1), rng.choice([1, -1])]]
-        if content == "noise" and box >= STAT_MINBOX and (rows // box) * (cols // box) * box * box <= 4096 \
+        if content == "noise" and box >= STAT_MINBOX and (rows // box) * (cols // box) * box * box <= STAT_MAXN \
                 and rows >= 2 * box and cols >= 2 * box:
             spec["stationary"] = True
     if rng.random() < 0.2:
@@ -699,10 +700,11 @@ def run(ctx):
         "(float32 / int16 * BSCALE); a clip threshold falling within ~1e-12 of a pixel value could still flip "
         "between the members of a group (probability ~1e-9 per threshold; seeds are fixed)",
         "identities are checked at 8 ppm of L = max(|pixel|, range, |c|) because the maps are float32",
-        "stationary clause: pure Gaussian noise + DC, box >= 16, image >= 2 box per axis and N = nind * box^2 <= 4096 "
-        "independent pixels, where 6 standard errors (>= 6.6 % for rms) dominate the intrinsic bias of a 3-sigma "
+        "stationary clause: pure Gaussian noise + DC, box >= 16, image >= 2 box per axis and N = nind * box^2 <= 2400 "
+        "independent pixels, where 6 standard errors (>= 8.6 % for rms) dominate the intrinsic bias of a 3-sigma "
         "clipped, ddof = 0, self-subtracted estimator (measured -1.3 .. -1.9 % for box >= 16; -3 .. -5 % for box 8, "
-        "which is why smaller boxes are left out of this clause)",
+        "which is why smaller boxes are left out of this clause; measured z-scores of the unchanged estimator: mean 1.3, "
+        "max 4.2 over 240 images)",
         "compressed output is lossy by design: for expanded compressed files only shape, range, constant, "
         "add-constant and scale clauses are evaluated (not the mask rule, not the stationary clause)",
         "square grid / box (step_size = (g, g), box_size = (b, b)); BZERO = 0; astropy.io.fits round-trips the files",
